@@ -137,10 +137,11 @@ pub fn scenarios(tier: Tier) -> Vec<Scenario> {
         v.push(Scenario::new(name, cfg, bound, move || body(&p)));
     };
     if tier.is_quick() {
-        add(P { msgs: vec![S], attach_at: None, real_small_buffer: false }, 2);
-        add(P { msgs: vec![S, L2], attach_at: Some(1), real_small_buffer: false }, 2);
-        add(P { msgs: vec![L3, S, S], attach_at: Some(0), real_small_buffer: true }, 1);
-        add(P { msgs: vec![S, L3], attach_at: None, real_small_buffer: true }, 2);
+        add(P { msgs: vec![S], attach_at: None, real_small_buffer: false }, 3);
+        add(P { msgs: vec![S, L2], attach_at: Some(1), real_small_buffer: false }, 3);
+        add(P { msgs: vec![L3, S, S], attach_at: Some(0), real_small_buffer: true }, 2);
+        add(P { msgs: vec![S, L3], attach_at: None, real_small_buffer: true }, 3);
+        add(P { msgs: vec![L2, One], attach_at: Some(0), real_small_buffer: false }, 2);
         // several first packets on the connected socket itself while the server is not reading
         add(P { msgs: vec![One, S, One], attach_at: Some(2), real_small_buffer: true }, 2);
     } else {
